@@ -333,3 +333,102 @@ func verif_C05_cut() {
 	verifAssert(verifGoroutinesAlive() == 0, "C05.cut-no-goroutine-left")
 	verifReach("C05.cut-end")
 }
+
+// verif_C05_data_equiv: the same message (two lines, three arbitrary octets)
+// is sent with DATA and with BDAT under an arbitrary chunking (1..3 chunks, cut
+// points arbitrary, an empty chunk allowed), under a size limit around the
+// message size, with an arbitrary backend verdict, in SMTP and both LMTP
+// flavours. The backend must read the same octets and end the same way, the
+// final reply has the same code and text, and the callback sequence is the
+// same: chunking is framing only.
+func verif_C05_data_equiv() {
+	verifPreemptBound(0)
+	verifSchedForkBound(0)
+	x, y, z := nondetByte(), nondetByte(), nondetByte()
+	for _, ch := range []byte{x, y, z} {
+		assume(ch != '\r' && ch != '\n')
+	}
+	assume(x != '.' && z != '.')
+	msg := []byte{x, y, '\r', '\n', z, '\r', '\n'}
+	mode := verifChoice(3) // 0 SMTP, 1 LMTP plain session, 2 LMTP per-recipient session
+	limit := []int64{0, int64(len(msg)) - 1, int64(len(msg)), int64(len(msg)) + 1}[verifChoice(4)]
+	reject := nondetBool()
+	c1 := nondetInt(0, len(msg))
+	c2 := nondetInt(c1, len(msg))
+	type obs struct {
+		body  []byte
+		rerr  error
+		final []vreply
+		kinds []string
+	}
+	run := func(bdat bool) obs {
+		var o obs
+		be := &vbackend{lmtpSession: mode == 2}
+		consume := func(r io.Reader) error {
+			o.body, o.rerr = verifReadAll(r, 3)
+			if o.rerr != io.EOF {
+				return o.rerr
+			}
+			if reject {
+				return verifErrBackend()
+			}
+			return nil
+		}
+		be.dataFn = func(_ *vsession, r io.Reader) error { return consume(r) }
+		be.lmtpFn = func(_ *vsession, r io.Reader, st StatusCollector) error { return consume(r) }
+		s, _ := verifServer(be)
+		s.LMTP = mode != 0
+		s.MaxMessageBytes = limit
+		hello := "EHLO c\r\n"
+		if s.LMTP {
+			hello = "LHLO c\r\n"
+		}
+		in := hello + "MAIL FROM:<s@v>\r\nRCPT TO:<r@v>\r\n"
+		nfinal := 4 // index of the first reply that belongs to the transfer
+		if bdat {
+			in += "BDAT " + strconv.Itoa(c1) + "\r\n" + string(msg[:c1])
+			in += "BDAT " + strconv.Itoa(c2-c1) + "\r\n" + string(msg[c1:c2])
+			in += "BDAT " + strconv.Itoa(len(msg)-c2) + " LAST\r\n" + string(msg[c2:])
+		} else {
+			in += "DATA\r\n" + string(msg) + ".\r\n"
+		}
+		in += "NOOP\r\n"
+		vc, _, _ := verifServe(s, []byte(in), io.EOF)
+		reps, wf := verifParseReplies(vc.out)
+		verifAssert(wf && len(reps) > nfinal, "C05.equiv-replies-wellformed")
+		if wf && len(reps) > nfinal {
+			o.final = reps[nfinal:]
+		}
+		for _, e := range be.trace {
+			o.kinds = append(o.kinds, e.kind)
+		}
+		return o
+	}
+	d := run(false)
+	b := run(true)
+	verifObserve("c05eq", mode, limit, reject, c1, c2, len(d.body), len(b.body), len(d.final), len(b.final))
+	if limit == 0 || int64(len(msg)) <= limit {
+		verifReach("C05.equiv-fits")
+		verifAssert(string(d.body) == string(b.body) && string(b.body) == string(msg), "C05.equiv-same-octets")
+		verifAssert(d.rerr == io.EOF && b.rerr == io.EOF, "C05.equiv-both-complete")
+		// DATA: 354, final, NOOP. BDAT: 250 250 final NOOP.
+		verifAssert(len(d.final) == 3 && len(b.final) == 4, "C05.equiv-reply-counts")
+		if len(d.final) == 3 && len(b.final) == 4 {
+			fd, fb := d.final[1], b.final[2]
+			verifAssert(fd.code == fb.code && fd.hasEn == fb.hasEn && fd.enh == fb.enh && len(fd.lines) == len(fb.lines), "C05.equiv-same-final-reply")
+			verifAssert((fd.code == 250) == !reject, "C05.equiv-final-reply-is-the-backends-verdict")
+			verifAssert(d.final[2].code == 250 && b.final[3].code == 250, "C05.equiv-command-mode-after")
+		}
+		verifAssert(len(d.kinds) == len(b.kinds), "C05.equiv-same-callbacks")
+		if len(d.kinds) == len(b.kinds) {
+			for i := range d.kinds {
+				verifAssert(d.kinds[i] == b.kinds[i], "C05.equiv-same-callbacks")
+			}
+		}
+	} else {
+		verifReach("C05.equiv-too-large")
+		verifAssert(d.rerr != io.EOF && b.rerr != io.EOF, "C05.equiv-neither-complete")
+		verifAssert(int64(len(d.body)) <= limit && int64(len(b.body)) <= limit, "C05.equiv-never-more-than-the-limit")
+	}
+	verifAssert(verifGoroutinesAlive() == 0, "C05.equiv-no-goroutine-left")
+}
